@@ -272,6 +272,12 @@ func (p *Poly) Rename(f func(key string, v ssa.Value) (string, bool)) (*Poly, bo
 		}
 		if n, ok := f(k, v); ok {
 			role[k] = n
+		} else {
+			// an unclassified leaf keeps its key, value and operator
+			r.Leaf[k] = v
+			if oq, isOpq := p.Opq[k]; isOpq {
+				r.Opq[k] = oq
+			}
 		}
 	}
 	for m, c := range p.T {
@@ -517,6 +523,9 @@ func (ff *FuncFacts) poly(v ssa.Value, depth int) *Poly {
 			}
 			if acc := ff.phiAccumulator(x, depth); acc != nil {
 				return acc
+			}
+			if rm := ff.phiRunningMinMax(x, depth); rm != nil {
+				return rm
 			}
 		}
 	case *ssa.BinOp:
@@ -952,4 +961,123 @@ func (ff *FuncFacts) phiAccumulator(ph *ssa.Phi, depth int) *Poly {
 		ff.accResult[ph] = res
 	}
 	return res
+}
+
+// phiRunningMinMax recognises a loop-carried running minimum / maximum:
+//
+//	m := init; for … { x := …; if x < m { m = x } }
+//
+// i.e. a loop-header φ whose entry edges deliver one initial value and whose back edges
+// deliver either the φ itself or a value x on a path where x < φ (x ≤ φ) holds — then it
+// is MinAcc(init, x) — or φ < x — MaxAcc(init, x).  One update expression per loop.
+func (ff *FuncFacts) phiRunningMinMax(ph *ssa.Phi, depth int) *Poly {
+	if ff.in == nil {
+		return nil
+	}
+	hdr := ph.Block()
+	var init, upd *Poly
+	var kept []ValueCase
+	var updVals []ssa.Value
+	kind := ""
+	nBack := 0
+	for i, e := range ph.Edges {
+		pred := hdr.Preds[i]
+		if !ff.BlockReachable(pred) {
+			continue
+		}
+		if !hdr.Dominates(pred) {
+			p := ff.poly(e, depth+1)
+			if init != nil && !init.Equal(p) {
+				return nil
+			}
+			init = p
+			continue
+		}
+		nBack++
+		// the ways the back edge's value is chosen, unfolding merges inside the loop body
+		// but never the loop φ itself
+		var cases []ValueCase
+		var unfold func(v ssa.Value, fs []*Atom, d int)
+		unfold = func(v ssa.Value, fs []*Atom, d int) {
+			v = ff.Fwd(v)
+			in, isPhi := v.(*ssa.Phi)
+			if !isPhi || in == ph || d == 0 {
+				cases = append(cases, ValueCase{v, fs})
+				return
+			}
+			for j, ie := range in.Edges {
+				ip := in.Block().Preds[j]
+				if !ff.BlockReachable(ip) {
+					continue
+				}
+				nf := append(append(append([]*Atom{}, fs...), ff.OutFacts(ip)...), ff.EdgeFacts(ip, in.Block())...)
+				unfold(ie, nf, d-1)
+			}
+		}
+		unfold(e, append(append([]*Atom{}, ff.OutFacts(pred)...), ff.EdgeFacts(pred, hdr)...), 3)
+		for _, c := range cases {
+			v := ff.Fwd(c.Val)
+			if v == ssa.Value(ph) {
+				kept = append(kept, c)
+				continue
+			}
+			updVals = append(updVals, v)
+			k := ""
+			for _, a := range c.Facts {
+				if (a.Rel != LT && a.Rel != LE) || a.A == nil || a.B == nil {
+					continue
+				}
+				switch {
+				case ff.Fwd(a.A) == v && ff.Fwd(a.B) == ssa.Value(ph):
+					k = "MinAcc"
+				case ff.Fwd(a.B) == v && ff.Fwd(a.A) == ssa.Value(ph):
+					k = "MaxAcc"
+				}
+			}
+			if os.Getenv("ELYSLINT_POLY_DEBUG") != "" {
+				fmt.Fprintf(os.Stderr, "runningminmax %s: case %s kind=%q facts=%d\n", ph.Name(), v, k, len(c.Facts))
+				for _, a := range c.Facts {
+					fmt.Fprintf(os.Stderr, "    %s\n", ff.key(a))
+				}
+			}
+			if k == "" || (kind != "" && kind != k) {
+				return nil
+			}
+			kind = k
+			p := ff.poly(v, depth+1)
+			if p.Mentions(ff.termKey(ph)) {
+				return nil
+			}
+			if upd != nil && !upd.Equal(p) {
+				return nil
+			}
+			upd = p
+		}
+	}
+	if init == nil || upd == nil || nBack == 0 || kind == "" {
+		return nil
+	}
+	// the running value is kept only when the candidate does not beat it: every way round
+	// the loop that leaves the φ unchanged carries φ ≤ x (MinAcc) / x ≤ φ (MaxAcc) for the
+	// candidate — a skipped element or an extra condition on the update is not a minimum
+	for _, c := range kept {
+		ok := false
+		for _, a := range c.Facts {
+			if (a.Rel != LT && a.Rel != LE) || a.A == nil || a.B == nil {
+				continue
+			}
+			for _, x := range updVals {
+				if kind == "MinAcc" && ff.Fwd(a.A) == ssa.Value(ph) && ff.Fwd(a.B) == x {
+					ok = true
+				}
+				if kind == "MaxAcc" && ff.Fwd(a.B) == ssa.Value(ph) && ff.Fwd(a.A) == x {
+					ok = true
+				}
+			}
+		}
+		if !ok {
+			return nil
+		}
+	}
+	return MakeOpaque(kind, ph, init, upd)
 }
